@@ -818,8 +818,8 @@ pub static ALL_TAGS: &[T] = &[
 
 pub fn sweeps(ctx: &Ctx) -> Vec<Sweep> {
     let base = Arc::new(base_records());
-    let k = 2;
-    let _ = ctx;
+    // deviations per variant: 2 in the quick tier, 3 in the thorough tier
+    let k = if ctx.thorough() { 3 } else { 2 };
     let mut v = vec![];
     let mut gs: Vec<(Group, bool)> = groups().into_iter().map(|g| (g, false)).collect();
     // the group with the i18n accessors once more in worker processes that run under a German locale
@@ -836,13 +836,13 @@ pub fn sweeps(ctx: &Ctx) -> Vec<Sweep> {
         }
         let nm = m.len() as u64;
         // index space: 1 (no deviation) + nm (one) + nm*nm (ordered pairs i<j only are run) for k = 2
-        let n = 1 + nm + if k >= 2 { nm * nm } else { 0 };
+        let n = 1 + nm + if k >= 2 { nm * nm } else { 0 } + if k >= 3 { nm * nm * nm } else { 0 };
         let base = base.clone();
         let accessors = g.accessors.clone();
         let name = if german { format!("dev-{}@de_DE", g.name) } else { format!("dev-{}", g.name) };
         let rule = format!(
             "complete well-formed base header with pairwise distinct byte-asymmetric values; all 0-, 1-{} deviation variants over the {} tags of group '{}' from a menu of {} deviations (drop tag; retype to each other type; count 0 / n−1 / n+1; empty, short, multi-byte, invalid-UTF-8 values; 1–3 locales; 32/64-bit size variants; out-of-range dir index; every digest algorithm; upper-case hex digests; optional arrays; index entries reversed / rotated; entries behind the immutable region; lead fields that disagree with the header); accessors {:?} compared with an independent decoding; non-trivial = accepted and well-formed, hence judged",
-            if k >= 2 { " and 2-" } else { "" }, g.tags.len(), g.name, nm, accessors
+            if k >= 3 { ", 2- and 3-" } else { " and 2-" }, g.tags.len(), g.name, nm, accessors
         );
         let nm2 = name.clone();
         let rule = if german { format!("{} — the same sweep in worker processes started with LANG / LC_ALL / LC_MESSAGES = de_DE.UTF-8 and LANGUAGE = de_DE:de (what a header stores does not depend on the reader's locale)", rule) } else { rule };
@@ -852,13 +852,20 @@ pub fn sweeps(ctx: &Ctx) -> Vec<Sweep> {
                 vec![]
             } else if i <= nm {
                 vec![&m[(i - 1) as usize]]
-            } else {
+            } else if i <= nm + nm * nm {
                 let j = i - 1 - nm;
                 let (a, b) = ((j / nm) as usize, (j % nm) as usize);
                 if a >= b {
                     return;
                 }
                 vec![&m[a], &m[b]]
+            } else {
+                let j = i - 1 - nm - nm * nm;
+                let (a, b, c) = ((j / nm / nm) as usize, (j / nm % nm) as usize, (j % nm) as usize);
+                if a >= b || b >= c {
+                    return;
+                }
+                vec![&m[a], &m[b], &m[c]]
             };
             acc.evals += 1;
             let x = build(&base, &devs);
